@@ -144,7 +144,9 @@ def pinnedGrammar : G :=
 /-- Finding u (repaired by 3af476c): with the pinned `COMMENT` rule, `{a} #x` (comment without final newline) is a
     syntax error reported at offset 5; with the regenerated grammar it parses. -/
 theorem comment_eof_counterexample :
-    Peg.parse pinnedGrammar 8192 R.ExecutableDocument "{a} #x".toList = .error 5 ∧
+    (match Peg.parse pinnedGrammar 8192 R.ExecutableDocument "{a} #x".toList with
+      | .error 5 => true
+      | _ => false) = true ∧
     isOk (parseOp "{a} #x".toList) = true ∧ isOk (parseTs "scalar S #".toList) = true := by
   decide +kernel
 
